@@ -418,6 +418,19 @@ class Engine:
         md = self.model_dict(model) if model is not None else {}
         self._latch(Violation(label, md, detail() if callable(detail) else detail, key))
 
+    def report(self, label, key=None, detail=None):
+        """record a violation on this (feasible) path and keep going (several findings on one path)"""
+        self._check_latch()
+        self.stats["obligations"] += 1
+        st = self.labels.setdefault(label, [0, 0])
+        st[0] += 1
+        r = self.check()
+        v = Violation(label, self.model_dict() if r == z3.sat else {}, detail, key)
+        v.decisions = list(self.decisions)
+        v.notes = list(self.notes)
+        self.stats["violations"] += 1
+        self.violations.append(v)
+
     def fail(self, label, key=None, detail=None):
         """Unconditional violation on this (feasible) path."""
         self._check_latch()
